@@ -58,13 +58,13 @@ func goroutineAlive(gid string) bool {
 // mutation under data/ (and WAL removals) issued by a goroutine of that class stops in the
 // Before hook until the driver resumes it.
 type pauser struct {
-	mu     sync.Mutex
-	root   string
-	on     bool
-	gate   map[string]bool
-	hold   func(ev *event) bool // optional filter: pause only at these events
-	count  map[string]int
-	events chan *event // wake-up only; the events themselves are in pending
+	mu      sync.Mutex
+	root    string
+	on      bool
+	gate    map[string]bool
+	hold    func(ev *event) bool // optional filter: pause only at these events
+	count   map[string]int
+	events  chan *event // wake-up only; the events themselves are in pending
 	pending []*event
 	// after-hook log (what was done), for step inference and the "work after close" check
 	afterLog []string
